@@ -137,6 +137,19 @@ fn main() {
             println!("format with fraction-internal separators only: parse::<u64>(\"12\") = {r:?} (expected Ok(12))");
             if r == Ok(12) { 0 } else { 1 }
         },
+        // F13: the big-integer comparison of the odd-radix slow path compares input BYTES with upper-case digit characters,
+        // so lower-case digits (accepted by the parser) change the rounding of near-halfway inputs
+        #[cfg(feature = "radix")]
+        "f13" => {
+            const F13: u128 = lexical_core::NumberFormatBuilder::from_radix(13);
+            let o = lexical_core::ParseFloatOptions::builder().exponent(b'^').build().unwrap();
+            let lower = b"3c6b01c5858002190a62658583051^2";
+            let upper = lower.to_ascii_uppercase();
+            let a = lexical_core::parse_with_options::<f64, F13>(lower, &o);
+            let b = lexical_core::parse_with_options::<f64, F13>(&upper, &o);
+            println!("radix 13: parse({:?}) = {:?}; the same digits in upper case = {:?} (must be identical)", String::from_utf8_lossy(lower), a.map(|x| x.to_bits()), b.map(|x| x.to_bits()));
+            if a.map(|x| x.to_bits()) == b.map(|x| x.to_bits()) { 0 } else { 1 }
+        },
         _ => { eprintln!("unknown witness"); 2 },
     };
     std::process::exit(if code > 0 { 1 } else { 0 });
